@@ -481,6 +481,8 @@ class Exec:
             return sorted(it, key=repr)
         if hasattr(it, "dims") and isinstance(it.dims, tuple):   # array shape
             return list(it.dims)
+        if hasattr(it, "pyvc_iter"):
+            return it.pyvc_iter()
         return None
 
     def symbolic_for(self, n, it):
